@@ -319,7 +319,8 @@ class AMF:
                 return []
             raise Reject(f'unexpected 5GSM message {sm[3]:#x}')
         if inner[2]==0x45:  # deregistration request
-            need(ue.state in('registered','session','service'),f'deregistration in state {ue.state}')
+            # a UE may deregister at any time once registered, also while a session setup or release is still pending
+            need(ue.state in('registered','session','service','setup','releasing','released_ngap'),f'deregistration in state {ue.state}')
             n=int.from_bytes(inner[4:6],'big'); mcc,mnc,msin=suci_decode(inner[6:6+n]); need(mcc+mnc+msin==ue.supi,'deregistering identity')
             ue.state='dereg'
             acc=s.protect(ue,bytes([0x7e,0,0x46]),2)
